@@ -118,6 +118,137 @@ theorem unlock_repaints_partial (hrw : RwOk c.rw) (hct : c.Plain) (w h : Int) (o
   simp only [World.run, List.foldl_append, List.foldl_cons, List.foldl_nil] at inv
   exact (show_step hrw hct inv).2 (Or.inl ht)
 
+/-! ## the corner-trick family (every terminal description; side condition `World.SafeRun` / `World.SafeAt`, see Props/C01.lean)
+
+C13's own exception clause — "plus … the neighbour used to paint the bottom-right corner on auto-margin terminals" — is
+`CornerWrite` (Lemmas/DrawDefs.lean): when the corner cell (w-1,h-1) is dirty and visited, the Show also writes column
+w-2 of the last row (the corner glyph is written there and shifted by `ich1`; ICH itself counts as writing every cell from
+the cursor to the right margin, `ATerm.insertAt`) and the cell covering column w-2 (`Scr.coverStart`: column w-2 itself or
+the wide rune at w-3), which is repainted.  Nothing else is written. -/
+
+/-- **Only dirty cells are written, plus the corner trick's neighbour** (all terminals). -/
+theorem show_writes_only_dirty_corner_partial (hrw : RwOk c.rw) (hct : c.Walk) (w h : Int) (ops : List ScrOp)
+    (hv : ∀ op ∈ ops, op.Valid c) (hsafe : World.SafeRun c (World.init w h) ops)
+    (hlast : ((World.init w h).run c ops).SafeAt c .show) :
+    let wd := (World.init w h).run c ops
+    wd.trusted = true → (wd.sw.ttyw = wd.sw.s.w ∧ wd.sw.ttyh = wd.sw.s.h) →
+    ∃ ws, (wd.step c .show).t.writes = ws ++ wd.t.writes ∧
+      ∀ p ∈ ws, (wd.sw.s.cells.dirty p.1 p.2 = true ∧ visitedG c wd.sw.s.cells p.1 p.2 = true) ∨
+        CornerWrite c wd.sw.s.cells p :=
+  fun ht hsz => show_writes_c hrw hct (reach_inv_c hrw hct w h ops hv hsafe) hlast ht hsz
+
+/-- **Locked cells are never addressed** (all terminals, under the side condition: the trick's extra writes go to the last
+row, which holds no locked cell). -/
+theorem locked_never_addressed_corner_partial (hrw : RwOk c.rw) (hct : c.Walk) (w h : Int) (ops : List ScrOp)
+    (hv : ∀ op ∈ ops, op.Valid c) (hsafe : World.SafeRun c (World.init w h) ops)
+    (hlast : ((World.init w h).run c ops).SafeAt c .show) :
+    let wd := (World.init w h).run c ops
+    wd.trusted = true → (wd.sw.ttyw = wd.sw.s.w ∧ wd.sw.ttyh = wd.sw.s.h) →
+    ∃ ws, (wd.step c .show).t.writes = ws ++ wd.t.writes ∧
+      ∀ p ∈ ws, wd.sw.s.cells.locked p.1 p.2 = false := by
+  intro wd ht hsz
+  have inv := reach_inv_c hrw hct w h ops hv hsafe
+  obtain ⟨ws, h1, h2⟩ := show_writes_c hrw hct inv hlast ht hsz
+  refine ⟨ws, h1, ?_⟩
+  intro p hp
+  rcases h2 p hp with hd | hc
+  · exact dirty_unlocked _ _ _ hd.1
+  · obtain ⟨_, hul⟩ := cornerSafe_before_show inv hsz hlast hc.1
+    rw [hc.2.1, inv.buf.ch]; exact hul _
+
+/-- **An idle Show writes nothing** (all terminals): after a Show the corner cell is clean, so the trick does not run. -/
+theorem idle_show_writes_nothing_corner_partial (hrw : RwOk c.rw) (hct : c.Walk) (hs : c.guardLocked = false ∨ c.walkGuard = true)
+    (w h : Int) (ops : List ScrOp) (hv : ∀ op ∈ ops, op.Valid c) (hsafe : World.SafeRun c (World.init w h) ops)
+    (hlast : ((World.init w h).run c ops).SafeAt c .show)
+    (hlast2 : (((World.init w h).run c ops).step c .show).SafeAt c .show) :
+    let wd := (World.init w h).run c ops
+    (wd.trusted = true ∨ ¬ (wd.sw.ttyw = wd.sw.s.w ∧ wd.sw.ttyh = wd.sw.s.h)) →
+    ((wd.step c .show).step c .show).t.writes = (wd.step c .show).t.writes := by
+  intro wd htr
+  have inv0 := reach_inv_c hrw hct w h ops hv hsafe
+  obtain ⟨inv1, hdisp⟩ := show_step_c hrw hct inv0 hlast
+  have disp := hdisp htr
+  have ht1 : (wd.step c .show).trusted = true := by
+    by_cases hsz : wd.sw.ttyw = wd.sw.s.w ∧ wd.sw.ttyh = wd.sw.s.h
+    · rcases htr with h1 | h1
+      · simp only [World.step, hsz, and_self, if_true]; exact h1
+      · exact absurd hsz h1
+    · simp only [World.step, hsz, if_false]
+  have hsz1 : (wd.step c .show).sw.ttyw = (wd.step c .show).sw.s.w ∧ (wd.step c .show).sw.ttyh = (wd.step c .show).sw.s.h := by
+    have hd := inv1.tdim
+    have ht := (inv1.tr ht1)
+    exact ⟨by rw [← hd.1, ht.tw], by rw [← hd.2, ht.th]⟩
+  obtain ⟨ws, h1, h2⟩ := show_writes_c hrw hct inv1 hlast2 ht1 hsz1
+  obtain ⟨sw, sh, sg, sl⟩ := disp.same
+  -- no cell is both dirty and visited after the first Show
+  have hno : ∀ i j, (wd.step c .show).sw.s.cells.dirty i j = true →
+      visitedG c (wd.step c .show).sw.s.cells i j = true → False := by
+    intro i j hd hvis
+    rw [visitedG_static c hs _ _ sw sh sg sl] at hvis
+    have hr : (wd.step c .show).sw.s.cells.inRange i j := by
+      simp only [dirty] at hd; split at hd
+      · assumption
+      · exact absurd hd (by simp)
+    have hl : ((wd.step c .show).sw.s.cells.cells i j).lock = false := by
+      have hd' := hd
+      simp only [dirty] at hd'; rw [if_pos hr] at hd'; exact isDirty_true_unlocked _ hd'
+    have hr0 : (wd.sw.s.resize (some (wd.sw.ttyw, wd.sw.ttyh))).cells.inRange i j := by
+      rw [inRange_iff] at hr ⊢; rw [← sw, ← sh]; exact hr
+    have := disp.cleaned i j hr0 hvis (by rw [← sl]; exact hl)
+    rw [this] at hd; exact absurd hd (by simp)
+  cases ws with
+  | nil => simpa using h1
+  | cons p ws =>
+    exfalso
+    rcases h2 p (List.mem_cons_self ..) with ⟨hd, hvis⟩ | ⟨_, _, hd, hvis, _⟩
+    · exact hno _ _ hd hvis
+    · exact hno _ _ hd hvis
+
+/-- **A cell is repainted by the first Show after it is unlocked** (all terminals). -/
+theorem unlock_repaints_corner_partial (hrw : RwOk c.rw) (hct : c.Walk) (w h : Int) (ops : List ScrOp)
+    (hv : ∀ op ∈ ops, op.Valid c) (hsafe : World.SafeRun c (World.init w h) ops) (x y rw' rh : Int)
+    (hlast : (((World.init w h).run c ops).step c (.lockRegion x y rw' rh false)).SafeAt c .show) :
+    let wd := ((World.init w h).run c ops).step c (.lockRegion x y rw' rh false)
+    wd.trusted = true → Displays c (wd.sw.s.resize (some (wd.sw.ttyw, wd.sw.ttyh))).cells (wd.step c .show) := by
+  intro wd ht
+  have hv' : ∀ op ∈ ops ++ [ScrOp.lockRegion x y rw' rh false], op.Valid c := by
+    intro op ho; rcases List.mem_append.1 ho with ho | ho
+    · exact hv op ho
+    · simp only [List.mem_singleton] at ho; subst ho; trivial
+  have inv := reach_inv_c hrw hct w h (ops ++ [ScrOp.lockRegion x y rw' rh false]) hv' (World.SafeRun.append ops _ _ hsafe trivial)
+  simp only [World.run, List.foldl_append, List.foldl_cons, List.foldl_nil] at inv
+  exact (show_step_c hrw hct inv hlast).2 (Or.inl ht)
+
+/-- **Locked cells are never painted** (all terminals with the guard compiled in, under the side condition): no cell a
+payload occupies and no cell an inserted character shifts is locked. -/
+theorem locked_never_painted_corner_partial (hrw : RwOk c.rw) (hct : c.Walk) (hg : c.guardLocked = true) (w h : Int)
+    (ops : List ScrOp) (hv : ∀ op ∈ ops, op.Valid c) (hsafe : World.SafeRun c (World.init w h) ops)
+    (hlast : ((World.init w h).run c ops).SafeAt c .show) :
+    let wd := (World.init w h).run c ops
+    wd.trusted = true → (wd.sw.ttyw = wd.sw.s.w ∧ wd.sw.ttyh = wd.sw.s.h) →
+    ∃ cs, (wd.step c .show).t.covered = cs ++ wd.t.covered ∧ ∀ p ∈ cs, wd.sw.s.cells.locked p.1 p.2 = false :=
+  fun ht hsz => show_covers_c hrw hct hg (reach_inv_c hrw hct w h ops hv hsafe) hlast ht hsz
+
+/-! non-vacuity (4×2, `cornerTrick := true`, wide rune in the last row; `C01.opsCorner`): the Show that repaints the corner
+writes exactly the corner's neighbourhood — ICH shifts columns 2,3, the glyph is written at column 2, the wide rune at column 1
+(which covers column 2) is repainted — and a second Show writes nothing. -/
+example : ((((World.init 4 2).run C01.cfgCorner C01.opsCorner).step C01.cfgCorner .show).t.writes.take 4) =
+    [(1, 1), (3, 1), (2, 1), (2, 1)] := by decide +kernel
+example : CornerWrite C01.cfgCorner ((World.init 4 2).run C01.cfgCorner C01.opsCorner).sw.s.cells (1, 1) := by
+  refine ⟨rfl, ?_, ?_, ?_, Or.inr ?_⟩ <;> decide +kernel
+example : ((((World.init 4 2).run C01.cfgCorner C01.opsCorner).step C01.cfgCorner .show).step C01.cfgCorner .show).t.writes =
+    (((World.init 4 2).run C01.cfgCorner C01.opsCorner).step C01.cfgCorner .show).t.writes := by decide +kernel
+example := show_writes_only_dirty_corner_partial (c := C01.cfgCorner) (by exact C01.rwDemo_ok) C01.cfgCorner_walk 4 2 C01.opsCorner
+  (by simp [C01.opsCorner, ScrOp.Valid, attrInvalid]) C01.opsCorner_safe C01.opsCorner_safe_show
+
+/-- the open finding C13-corner-trick-locked-neighbour on the model: with the neighbour (2,0) of the corner locked the trick
+writes into it (the side condition excludes exactly this) -/
+theorem corner_trick_writes_locked_neighbour :
+    let ops : List ScrOp := [.setContent 2 0 0x62 [] {}, .show, .lockRegion 2 0 1 1 true, .setContent 3 0 0x5a [] {}]
+    let wd := (World.init 4 1).run C01.cfgCorner ops
+    wd.sw.s.cells.locked 2 0 = true ∧ (2, 0) ∈ (wd.step C01.cfgCorner .show).t.covered.take 3 ∧ wd.trusted = true := by
+  decide +kernel
+
 /-! ### what is *not* true of the pinned code: a wide rune left of a locked cell paints over it
 
 The right half of a wide glyph drawn at column x lands on column x+1 even when that cell is locked: the
